@@ -27,7 +27,7 @@ def fault_plan(rng, t0, duration, early):
     """list of (start, end, mode, parameter) windows on the virtual clock"""
     plan, t = [], t0 + (0.0 if early else rng.choice([3.0, 8.0, 20.0]))
     while t < t0 + duration:
-        mode = rng.choice(["blackout", "blackout", "lossy", "replyloss", "slow", "healthy"])
+        mode = rng.choice(["blackout", "blackout", "lossy", "replyloss", "slow", "healthy", "pingloss"])
         ln = rng.choice([1.5, 5.0, 9.0, 14.0, 30.0, 70.0]) if mode != "healthy" else rng.choice([5.0, 20.0, 40.0])
         par = {"lossy": rng.choice([0.3, 0.6, 0.9]), "replyloss": rng.choice([0.5, 1.0]), "slow": rng.choice([0.5, 2.5, 4.5])}.get(mode, 0)
         plan.append((t, min(t + ln, t0 + duration), mode, par))
@@ -61,11 +61,19 @@ def scenario(seed, snap, duration, early_faults, ncallers):
                 return []
             if m == "replyloss" and direction == "down" and rng.random() < p:
                 return []
+            if m == "pingloss" and direction == "down" and b"<DATAS>APING" in data:
+                return []           # only the answers to the keep-alive pings get lost: everything else (echoes, pushes, replies) arrives
             if m == "slow" and direction == "down":
+                if b"<DATAS>APING" in data:
+                    ping_answers.append(loop.time() + lat + p)
                 return [(lat + p, data)]
             if direction == "down" and b"<DATAS>STATP" in data:
                 return [(lat + 0.2, data)]
+            if direction == "down" and b"<DATAS>APING" in data:
+                ping_answers.append(loop.time() + base)
             return [(base, data)]
+        ping_answers = []          # virtual times at which an answer to a keep-alive ping reaches the client
+        liveness = []              # (t, library says 'answering pings', seconds since the last answer that really arrived)
         peer = session.Peer(loop, snap, latency=lat, script=script)
         cl = session.Client(peer)
         tr = rtrace.RTrace(lambda: cl.spa, loop).install()
@@ -95,6 +103,15 @@ def scenario(seed, snap, duration, early_faults, ncallers):
                 except AssertionError:
                     pass           # the protocol object is gone (connection failed): assert self._protocol is not None
 
+            async def spa_pushes():
+                # the spa's own values move: unsolicited partial updates keep arriving whatever happens to the pings
+                v = 0
+                while True:
+                    await asyncio.sleep(rng.choice([2.0, 5.0, 11.0]))
+                    v += 1
+                    peer.spontaneous("DisplayedTempG", 60.0 + (v % 40))
+            pt = loop.create_task(spa_pushes())
+
             async def callers():
                 while True:
                     await asyncio.sleep(rng.choice([0.07, 0.4, 1.3, 3.1, 7.0]))
@@ -108,6 +125,22 @@ def scenario(seed, snap, duration, early_faults, ncallers):
                     for _ in range(rng.choice([1, 1, 2, 3, ncallers])):
                         loop.create_task(one(rng.choice(kinds)), name="caller")
                     cfgs.add((C.GeckoConfig.PROTOCOL_TIMEOUT_IN_SECONDS, C.GeckoConfig.PAUSE_BETWEEN_RETRIES_IN_SECONDS))
+            t_conn = loop.time()
+
+            async def liveness_watch():
+                # the gate's clock, read independently: the library may say 'answering pings' only while an answer really arrived within
+                # twice the ping period (its own definition), counted from the answers that reached the client's socket
+                while spa._protocol is not None:
+                    await asyncio.sleep(0.5)
+                    now = loop.time()
+                    arrived = [t for t in ping_answers if t <= now]
+                    since = now - max(arrived + [t_conn])
+                    try:
+                        lib = bool(spa.is_responding_to_pings)
+                    except Exception:
+                        lib = False
+                    liveness.append((now, lib, since, C.GeckoConfig.PING_FREQUENCY_IN_SECONDS))
+            lw = loop.create_task(liveness_watch())
             ct = loop.create_task(callers())
             await asyncio.sleep(duration)
             ct.cancel()
@@ -125,10 +158,12 @@ def scenario(seed, snap, duration, early_faults, ncallers):
                     break
                 await asyncio.sleep(0.05)
             labels_at_quiet = len(tr.log)
+            lw.cancel()
+            pt.cancel()
             await cl.close()
         finally:
             tr.remove()
-        return dict(ok=ok, tr=tr, quiescent=quiescent, budget=budget, nq=labels_at_quiet, stall=max(stalls), cfgs=cfgs, plan=plan, issued=issued,
+        return dict(ok=ok, tr=tr, quiescent=quiescent, budget=budget, nq=labels_at_quiet, stall=max(stalls), cfgs=cfgs, plan=plan, issued=issued, liveness=liveness,
                     sent=[(t, d) for (t, d) in peer.raw])
     return vloop.run(main)
 
@@ -206,7 +241,7 @@ def py_oracle(tr, T=None, P=None, J=None):
 def run(ctx):
     ctx.rule = ("trace acceptance: complete sessions of the REAL GeckoAsyncSpa + facade (handshake, ping / refresh / facade-update loops) against the in-process simulator "
                 "under virtual time, with bursts of concurrent command / query callers (key press, set value, watercare get / set, reminders), fault windows (blackout, "
-                "random loss, reply loss, slow replies beyond the timeout) and event-loop stalls; every event of the engine (call, lock grant, send, poll miss, hit, timeout, "
+                "random loss, reply loss, slow replies beyond the timeout, loss of the ping answers alone while the spa keeps pushing updates) and event-loop stalls; every event of the engine (call, lock grant, send, poll miss, hit, timeout, "
                 "pause end, return, cancellation; gate transitions) is recorded with its virtual time and must be accepted by Model/Request.v, whose run also yields the "
                 "duration / attempts / hits of every call; non-trivial = session with a timed-out attempt, a retry and at least 3 callers queued on the lock at once")
     ctx.prove(timeout=1200)
@@ -258,6 +293,12 @@ def run(ctx):
             ctx.fail("engine:harness_fact", what, {"snapshot": snap, "seed": ctx.seed * 1000 + k})
         for key, what in py_oracle(tr, int(T * 1e6), int(P * 1e6), J)[:2]:
             ctx.fail(key, what, {"snapshot": snap, "seed": ctx.seed * 1000 + k, "plan": m["fault_windows"]})
+        stale = [(t, since, f) for (t, lib, since, f) in r["liveness"] if lib and since > 2 * f + 1.0 + r["stall"]]
+        ctx.count("liveness_samples", len(r["liveness"]))
+        if stale:
+            t, since, f = stale[0]
+            ctx.fail("gate:answering_pings_without_an_answer", "at %.1f s the spa counts as answering pings (commands / queries are let through) although the last answer to a ping reached the client "
+                     "%.1f s earlier (ping period %s s: the gate should have closed after %s s)" % (t - 1000, since, f, 2 * f), {"snapshot": snap, "seed": ctx.seed * 1000 + k, "plan": m["fault_windows"]})
         if not r["quiescent"]:
             ctx.fail("engine:caller_never_completes", "a command / query call was still open %.0f virtual seconds after the network became healthy (the sum of the time bounds of the calls open at that moment, plus 60 s)" % r["budget"],
                      {"snapshot": snap, "seed": ctx.seed * 1000 + k, "open": [tr.calls[c] for c, st in tr.state.items() if not st["done"]][:4]})
